@@ -912,6 +912,45 @@ fn cmd_f8() -> Result<()> {
 
 // ------------------------------------------------------------------------------ C07
 
+/// every `memory.copy` that touches the imported provider memory must have the guest's own
+/// (defined) memory on the other side: the glue never moves bytes to or from a foreign memory
+fn glue_copies_between_provider_and_own(wasm: &[u8]) -> Result<Vec<String>> {
+    let mut mem_imports: Vec<(String, String)> = Vec::new();
+    let mut defined = 0u32;
+    let mut bad = Vec::new();
+    for payload in wasmparser::Parser::new(0).parse_all(wasm) {
+        match payload? {
+            wasmparser::Payload::ImportSection(r) => {
+                for imp in r.into_imports() {
+                    let imp = imp?;
+                    if let wasmparser::TypeRef::Memory(_) = imp.ty {
+                        mem_imports.push((imp.module.to_string(), imp.name.to_string()));
+                    }
+                }
+            }
+            wasmparser::Payload::MemorySection(r) => defined = r.count(),
+            wasmparser::Payload::CodeSectionEntry(body) => {
+                let provider = mem_imports.iter().position(|(m, n)| m == API_MODULE && n == "memory").map(|i| i as u32);
+                let own = if defined == 1 { Some(mem_imports.len() as u32) } else { None };
+                for op in body.get_operators_reader()? {
+                    if let wasmparser::Operator::MemoryCopy { dst_mem, src_mem } = op? {
+                        if let (Some(p), Some(o)) = (provider, own) {
+                            let touches_provider = dst_mem == p || src_mem == p;
+                            let other = if dst_mem == p { src_mem } else { dst_mem };
+                            if touches_provider && other != o {
+                                let name = |i: u32| mem_imports.get(i as usize).map(|(m, n)| format!("{}.{}", m, n)).unwrap_or_else(|| format!("own#{}", i));
+                                bad.push(format!("memory.copy {} <- {}", name(dst_mem), name(src_mem)));
+                            }
+                        }
+                    }
+                }
+            }
+            _ => {}
+        }
+    }
+    Ok(bad)
+}
+
 fn summary_line(wasm: &[u8]) -> Result<String> {
     let (imps, own) = imports_of(wasm)?;
     let items: Vec<String> = imps
@@ -1080,6 +1119,9 @@ fn cmd_c07(seed: u64, n: u64, ops_path: &str, impl_path: &str) -> Result<()> {
                     Err(e) => failures.push(format!("case {} ({}): second application fails: {}", i, vname, e)),
                 }
                 let _ = before;
+                for b in glue_copies_between_provider_and_own(&out)? {
+                    failures.push(format!("case {} ({}): glue copies to/from a memory that is not the guest's own: {}", i, vname, b));
+                }
                 if g.memories == 1 {
                     // own behaviour: original (API imports stubbed under their public names) vs rewritten
                     let a = own_behaviour(&eng, &wasm)?;
